@@ -28,6 +28,9 @@ A512 = ["-mavx512f", "-D__AVX512__"]
 FLAVOURS = {
     "prod": {"cxx": "g++", "flags": PROD, "ld": ["-fopenmp"]},
     "prod512": {"cxx": "g++", "flags": PROD + A512, "ld": ["-fopenmp"]},
+    # a user's own build: everything this CPU offers (defines __AVX512VL__, __AVX512DQ__, __BMI2__, ... which code may test)
+    "native": {"cxx": "g++", "flags": ["-O3", "-march=native", "-fopenmp", "-pthread"], "ld": ["-fopenmp"]},
+    "native512": {"cxx": "g++", "flags": ["-O3", "-march=native", "-D__AVX512__", "-fopenmp", "-pthread"], "ld": ["-fopenmp"]},
     "asan": {"cxx": "g++", "flags": SAN, "ld": ["-fopenmp", "-fsanitize=address,undefined"]},
     "asan512": {"cxx": "g++", "flags": SAN + A512, "ld": ["-fopenmp", "-fsanitize=address,undefined"]},
     # production flags, OpenMP runtime replaced by the pthread stand-in (sequential / permuted / threads)
